@@ -89,16 +89,24 @@ func randString(r *proto.Rand, max int) string {
 	return b.String()
 }
 
-func mdConverter(src []byte, out io.Writer) error {
-	// a converter that writes in three pieces, so that the failure can fall inside it
-	if _, err := out.Write([]byte("<p>")); err != nil {
-		return err
+// converters with the three behaviours an embedder's converter can have when its writer fails:
+// report the error (0), swallow it and stop (1: a bufio.Writer whose Flush error is ignored),
+// swallow it and keep writing (2). All write in three pieces so that the failure can fall inside.
+func mdConverterMode(mode int) scriggo.Converter {
+	return func(src []byte, out io.Writer) error {
+		pieces := [][]byte{[]byte("<p>"), []byte(strings.ReplaceAll(string(src), "<", "&lt;")), []byte("</p>")}
+		for _, p := range pieces {
+			if _, err := out.Write(p); err != nil {
+				switch mode {
+				case 0:
+					return err
+				case 1:
+					return nil
+				}
+			}
+		}
+		return nil
 	}
-	if _, err := out.Write([]byte(strings.ReplaceAll(string(src), "<", "&lt;"))); err != nil {
-		return err
-	}
-	_, err := out.Write([]byte("</p>"))
-	return err
 }
 
 var globals = native.Declarations{
@@ -239,7 +247,8 @@ func run(c *hx.Ctx) error {
 	built := 0
 	for i := 0; i < nTemplates; i++ {
 		tc := genCase(c.R)
-		t, err := scriggo.BuildTemplate(tc.files, tc.main, &scriggo.BuildOptions{Globals: globals, MarkdownConverter: mdConverter})
+		convMode := i % 3
+		t, err := scriggo.BuildTemplate(tc.files, tc.main, &scriggo.BuildOptions{Globals: globals, MarkdownConverter: mdConverterMode(convMode)})
 		if err != nil {
 			res.Hist("build-error")
 			if res.Histogram["build-error"] <= 3 {
@@ -256,6 +265,9 @@ func run(c *hx.Ctx) error {
 		}
 		for _, f := range tc.features {
 			res.Hist("feature:" + f)
+			if f == "render-md-converted" {
+				res.Hist(fmt.Sprintf("converter-mode:%d", convMode))
+			}
 		}
 		res.Hist(fmt.Sprintf("writes:%02d-%02d", len(rec.chunks)/10*10, len(rec.chunks)/10*10+9))
 		hexChunks := make([]string, len(rec.chunks))
@@ -308,7 +320,7 @@ func run(c *hx.Ctx) error {
 				res.Sample(map[string]any{"template": string(tc.files["index.html"]), "k": k, "writes": len(rec.chunks), "impl": impl})
 			}
 			if clause != "" {
-				detail := fmt.Sprintf("k=%d of %d writes; err=%v panic=%v; Write calls after the failure=%d\n%s", k, len(rec.chunks), err, panicked, fw.after, tc.human())
+				detail := fmt.Sprintf("k=%d of %d writes; converter mode %d (0 reports the write error, 1 swallows it, 2 swallows it and keeps writing); err=%v panic=%v; Write calls after the failure=%d\n%s", k, len(rec.chunks), convMode, err, panicked, fw.after, tc.human())
 				res.AddBreak(proto.Break{Kind: "property", Name: clause, Case: lines[k-1], Human: detail, Impl: impl,
 					Model: fmt.Sprintf("ok %s %d writeErr", proto.Hex(want), k)})
 			}
